@@ -210,7 +210,12 @@ def fvc_rules(repo, rep, orc):
 
 def homogeneity(rep, key, w, v):
     d = alg.TABLE.sym('dist')
-    r = alg.decide_equal(alg.diff(v, d.id) * Rat.atom(d), v)
+    try:
+        r = alg.decide_equal(alg.diff(v, d.id) * Rat.atom(d), v)
+    except ValueError as e:
+        # a generator without a derivative (a rounding, an integer part): proportionality is not decided here - the formula rule speaks
+        rep.undecided('R-LEAVES', key.replace('R-FORMULA', 'R-LEAVES'), w, 'proportionality not decided: %s' % e)
+        return
     if r == 'equal':
         rep.holds('R-LEAVES', key.replace('R-FORMULA', 'R-LEAVES'), w, 'the correction is homogeneous of degree one in the distance (dist * d/d dist = itself)')
     elif r == 'different':
@@ -346,7 +351,22 @@ def dispersion_rule(repo, rep):
         rep.violated('R-SIBLING', key, w, 'group_refractivity is not phase_refractivity plus its dispersion term sigma dN/dsigma',
                      expected=show(want, 2, 300), actual=show(ng_, 2, 300))
     else:
-        rep.undecided('R-SIBLING', key, w, 'dispersion identity not decided (bodies differ structurally and the global forms are too large)')
+        # too large for the exact decision: evaluate both forms at points of the property's atmosphere box
+        rng = {'lam': (0.4, 1.6), 'tc': (-20.0, 45.0), 'p': (650.0, 1100.0), 'pv': (0.5, 40.0), 'xc': (300.0, 600.0)}
+        wit = None
+        try:
+            wit = alg.numeric_witness(ng_, want, rng, trials=8, rel=1e-7)
+            agree = wit is None and alg.numeric_agree(ng_, want, rng, trials=8, rel=1e-9)
+        except RecursionError:
+            agree = False
+        if wit is not None:
+            pt, va, vb = wit
+            rep.violated('R-SIBLING', key, w, 'group_refractivity is not phase_refractivity plus its dispersion term sigma dN/dsigma: at %s it gives %.9g where N_p + sigma dN_p/dsigma is %.9g '
+                         '(the two routines no longer treat their arguments alike, statement by statement they do not line up)' % (
+                             ', '.join('%s=%.4g' % kv for kv in sorted(pt.items())), va.real, vb.real), expected='N_p + sigma dN_p/dsigma', actual='%.9g vs %.9g' % (va.real, vb.real))
+        else:
+            rep.undecided('R-SIBLING', key, w, 'dispersion identity not decided exactly (bodies differ structurally and the global forms are too large)%s' % (
+                '; the two forms agree to 1e-9 at eight points of the atmosphere box' if agree else ''))
 
 
 def run(repo, rep):
@@ -359,6 +379,17 @@ def run(repo, rep):
     plane_rules(repo, rep, orc)
     fvc_rules(repo, rep, orc)
     dispersion_rule(repo, rep)
+    # the raising tests of every routine as predicates over the property's input box: none may fire inside it
+    box = 'the quantifier of the property (coordinates to 1e7 m, the full circle of bearings plus a rotation, zenith angles 0..360, slope distances to 50 km)'
+    common.domain_guards(repo, rep, 'geodepy.convert', 'polar2rect', ['r', 'theta'], {'r': (0, 10000000), 'theta': (-360, 720)}, box)
+    common.domain_guards(repo, rep, 'geodepy.convert', 'rect2polar', ['x', 'y'], {'x': (-10000000, 10000000), 'y': (-10000000, 10000000)}, box)
+    common.domain_guards(repo, rep, 'geodepy.survey', 'joins', ['e1', 'n1', 'e2', 'n2'],
+                         {'e1': (-10000000, 10000000), 'n1': (-10000000, 10000000), 'e2': (-10000000, 10000000), 'n2': (-10000000, 10000000)}, box)
+    common.domain_guards(repo, rep, 'geodepy.survey', 'radiations', ['e1', 'n1', 'brg', 'dist', 'rotation', 'psf'],
+                         {'e1': (-10000000, 10000000), 'n1': (-10000000, 10000000), 'brg': (0, 360), 'dist': (0, 50000), 'rotation': (-360, 360), 'psf': (F(9, 10), F(11, 10))}, box)
+    for lo_, hi_, sfx in ((F(1, 100), F(17999, 100), '[face left]'), (F(18001, 100), F(35999, 100), '[face right]')):
+        common.domain_guards(repo, rep, 'geodepy.survey', 'va_conv', ['zenith', 'slope', 'hi', 'ht'],
+                             {'zenith': (lo_, hi_), 'slope': (F(1, 10), 50000), 'hi': (-5, 5), 'ht': (-5, 5)}, box, suffix=sfx)
     rep.floor('R-FORMULA', 9, 'plane, zenith and velocity-correction formulas')
 
 
